@@ -486,14 +486,15 @@ def build_render(u):
     eq = u.method("src/rope.rs", "impl PartialEq<str> for Rope<'_> {", "eq")
     eq.rule("D1", r"fn eq\(", "fn eq_str(")
     f1p_for_tuple(eq, "eq_str")
+    # N1: the local `other` (bytes) shadows the parameter `other` (str); alpha-renamed so that the loop invariant can name both
+    eq.rule("N1", r"let other = other\.as_bytes\(\);.*", lambda m: "let other_b = other.as_bytes();" + re.sub(r"\bother\b", "other_b", m.group(0)[len("let other = other.as_bytes();"):]))
     eq.sig("eq_str", [("Rope::eq_str.requires", "contract", "requires self.wf()"),
-                      # vstd does not specify `==` on byte slices, so the answer itself cannot be stated; what is proved is that the
-                      # comparison never slices `other` out of range (C17 / C16's "no in-domain operation panics")
-                      ("Rope::eq_str.total", "contract", "ensures true")], ret="r")
+                      # `==` on byte slices: axiom_u8_slice_eq (std's PartialEq for slices); the comparison never slices `other` out of range
+                      ("Rope::eq_str.ensures", "contract", "ensures r == (self.bytes() == other.spec_bytes())")], ret="r")
     eq.body_start("eq_str", "Rope::eq_str.ghost.o", "ghost", "let ghost ob = other.spec_bytes();")
     eq.body_start("eq_str", "Rope::eq_str.hint.len", "hint", "proof { self.lemma_last(); }")
     eq.loop("eq_str", 1, [("Rope::eq_str.loop1.inv", "contract",
-                           "invariant chunks_wf(data@), other@ == ob, ob.len() == chunks_bytes(data@).len(), ob.len() <= usize::MAX, idx == chunks_bytes(data@.take(it.index@ as int)).len(), idx <= ob.len(),\n"
+                           "invariant self.bytes() == chunks_bytes(data@), ob == other.spec_bytes(), chunks_wf(data@), other_b@ == ob, ob.len() == chunks_bytes(data@).len(), ob.len() <= usize::MAX, idx == chunks_bytes(data@.take(it.index@ as int)).len(), idx <= ob.len(),\n"
                            "  ob.subrange(0, idx as int) == chunks_bytes(data@.take(it.index@ as int)),")])
     eq.loop_body_start("eq_str", 1, "Rope::eq_str.hint.step", "hint",
                        "proof {\n"
@@ -523,7 +524,7 @@ def build(u):
               "use std::rc::Rc;", "use std::ops::{Bound, RangeBounds};", "use std::cmp::Ordering;", "use std::slice::SliceIndex;", "use std::borrow::Cow;"]:
         u.use(x)
     u.spec("rope_spec.rs")
-    u.raw("broadcast use {vstd::string::group_string_axioms, rope_ax::axiom_str_len_bound};", ("glue", NAME))
+    u.raw("broadcast use {vstd::string::group_string_axioms, rope_ax::axiom_str_len_bound, rope_ax::axiom_u8_slice_eq};", ("glue", NAME))
     r = u.item("src/rope.rs", "pub(crate) enum Repr<'a> {")
     r.rule("V1", r"pub\(crate\) enum Repr", "pub enum Repr")
     u.item("src/rope.rs", "pub struct Rope<'a> {")
